@@ -94,3 +94,34 @@ class Twice(flow.Operator):
             apply_reducer[idx].subscribe(branch.apply.publisher)
             train_reducer[idx].subscribe(branch.train.publisher)
         return head.use(apply=head.apply.extend(tail=apply_reducer), train=head.train.extend(tail=train_reducer))
+
+
+class Siamese(flow.Operator):
+    """Two stateless branches processed by forks of one and the same stateful worker group (shared state by design), merged
+    by a stateless 2:1 reducer, in both modes. Written against the public composition API."""
+
+    def __init__(self, shared: flow.Builder, left: flow.Builder, right: flow.Builder, reducer: flow.Builder):
+        self._shared = shared
+        self._sides = (left, right)
+        self._reducer = reducer
+
+    def compose(self, scope: flow.Composable) -> flow.Trunk:
+        preceding: flow.Trunk = scope.expand()
+        trainer = flow.Worker(self._shared, 1, 1)
+        trainer.train(preceding.train.publisher, preceding.label.publisher)
+        apply_reducer = flow.Worker(self._reducer, 2, 1)
+        train_reducer = apply_reducer.fork()
+        for idx, side in enumerate(self._sides):
+            apply_side = flow.Worker(side, 1, 1)
+            train_side = apply_side.fork()
+            apply_side[0].subscribe(preceding.apply.publisher)
+            train_side[0].subscribe(preceding.train.publisher)
+            apply_shared = trainer.fork()
+            train_shared = trainer.fork()
+            apply_shared[0].subscribe(apply_side[0])
+            train_shared[0].subscribe(train_side[0])
+            apply_reducer[idx].subscribe(apply_shared[0])
+            train_reducer[idx].subscribe(train_shared[0])
+        return preceding.use(
+            apply=preceding.apply.extend(tail=apply_reducer), train=preceding.train.extend(tail=train_reducer)
+        )
